@@ -27,12 +27,12 @@ func b2z(b bool) *big.Int {
 func runC19(seed uint64, n int, out, stats string, _ []string) {
 	c := NewCases(out)
 	var mon []MonitorFailure
-	payouts, accruals, x3pays, dropped := 0, 0, 0, 0
+	payouts, accruals, x3pays, dropped, setChanges := 0, 0, 0, 0, 0
 	for i := 0; i < n; i++ {
 		s := seed*1000003 + uint64(i)
 		r := NewRng(s)
 		nv := 2 + r.Intn(4)
-		spec := &GenesisSpec{NAccounts: 6, Balance: pip(100000000), NVals: nv, ExtraCands: r.Intn(2)}
+		spec := &GenesisSpec{NAccounts: 6, Balance: pip(100000000), NVals: nv, ExtraCands: r.Intn(3)}
 		for j := 0; j < nv+spec.ExtraCands; j++ {
 			switch r.Intn(4) {
 			case 0:
@@ -82,6 +82,11 @@ func runC19(seed uint64, n int, out, stats string, _ []string) {
 					}
 				}
 			}
+			// the extra candidates start offline: they join the validator set only after a
+			// SetCandidateOnline transaction, possibly in the middle of a payout period
+			for ci := nv; ci < len(st.Candidates); ci++ {
+				st.Candidates[ci].Status = 1
+			}
 			// some accounts have their stake locked (x3 rewards)
 			for ai := range st.Accounts {
 				if r.Intn(3) == 0 {
@@ -95,6 +100,7 @@ func runC19(seed uint64, n int, out, stats string, _ []string) {
 		nd := newNode(spec)
 		where := fmt.Sprintf("vharness c19 -seed %d -n %d (history %d, seed %d)", seed, n, i, s)
 		nb := 13 + r.Intn(40)
+		earlyEv := 2 + r.Intn(16)
 		prev := nd.Export()
 		c.Begin(6)
 		nontriv := false
@@ -106,12 +112,18 @@ func runC19(seed uint64, n int, out, stats string, _ []string) {
 					opts.Absent[r.Intn(nv)] = true
 				}
 			}
-			if r.Intn(25) == 0 {
+			if r.Intn(25) == 0 || (b == earlyEv && spec.ExtraCands > 0) {
+				// (early evidence: the extra candidates are not validators before the first period ends,
+				// so a drop now refreshes the set with a newcomer in the middle of a period)
 				opts.Evidence = []int{r.Intn(nv)}
 			}
 			var txs [][]byte
 			fees := big.NewInt(0)
-			if r.Intn(3) == 0 {
+			if spec.ExtraCands > 0 && b == earlyEv-1-r.Intn(2) {
+				for ci := nv; ci < nv+spec.ExtraCands; ci++ {
+					txs = append(txs, nd.MkTx(nd.Accts[ci%len(nd.Accts)], transaction.TypeSetCandidateOnline, transaction.SetCandidateOnData{PubKey: nd.Vals[ci].Pub}, 0, 0, 1, nil))
+				}
+			} else if r.Intn(3) == 0 {
 				a := nd.Accts[r.Intn(len(nd.Accts))]
 				txs = append(txs, nd.MkTx(a, transaction.TypeSend, transaction.SendData{Coin: 0, To: nd.Accts[0].Addr, Value: Z(1)}, 0, 0, uint32(1+r.Intn(3)), nil))
 			}
@@ -212,6 +224,44 @@ func runC19(seed uint64, n int, out, stats string, _ []string) {
 					got := new(big.Int).Add(sumAfter, outv[len(outv)-1])
 					if tot.Cmp(got) != 0 {
 						mon = append(mon, MonitorFailure{What: fmt.Sprintf("C19: block %d: accrued %s + remainder differs from reward+fees %s", h, got, tot), Key: "c19-accrual-sum", Replay: where})
+					}
+				}
+			}
+			if !isPayout && !sameSet {
+				// the validator set was refreshed in the middle of a period (a validator dropped): a validator
+				// that stays keeps exactly its accrual, a newcomer starts from zero, a dropped one's reward
+				// went back into this block's pool (C19: accrued rewards belong to who earned them)
+				rwt := new(big.Int).Add(calcReward, fees)
+				totalPower := big.NewInt(0)
+				for _, rw := range rows {
+					if rw.drop {
+						rwt.Add(rwt, rw.accum)
+					}
+					if rw.present && !rw.drop {
+						totalPower.Add(totalPower, rw.stake)
+					}
+				}
+				if totalPower.Sign() == 0 {
+					totalPower = big.NewInt(1)
+				}
+				for _, v := range cur.Validators {
+					want := big.NewInt(0)
+					found := false
+					for k, pv := range prev.Validators {
+						if pv.PubKey == v.PubKey {
+							found = true
+							if !rows[k].drop {
+								want = new(big.Int).Set(rows[k].accum)
+								if rows[k].present {
+									sh := new(big.Int).Mul(rwt, rows[k].stake)
+									want.Add(want, sh.Div(sh, totalPower))
+								}
+							}
+						}
+					}
+					setChanges++
+					if !jailed && bi(v.AccumReward).Cmp(want) != 0 {
+						mon = append(mon, MonitorFailure{What: fmt.Sprintf("C19: validator set refreshed in block %d: validator %s (in previous set: %v) holds accumulated reward %s, earned %s", h, v.PubKey.String(), found, v.AccumReward, want), Key: "c19-set-change-accum", Replay: where})
 					}
 				}
 			}
@@ -329,5 +379,5 @@ func runC19(seed uint64, n int, out, stats string, _ []string) {
 	writeStats(stats, &Stats{Property: "C19", Seed: seed, Cases: c.NCases, Ops: c.NOps, NonTrivial: c.NonTriv,
 		Rule: "history of 13-52 blocks on the real node (2-5 validators with 0-3 extra delegators each, stakes 1000 BIP+1 pip .. 10^26, commissions 0-100, locked (x3) accounts, absences, evidence, fee-paying txs, zero block reward in a quarter of the histories); every non-payout block's accrual and every payout block's reward events are compared with Model/Rewards.v; non-trivial = at least one payout compared; distinct = distinct case text",
 		Dist: c.Dist, Samples: c.Samples, Monitor: mon,
-		Extra: map[string]interface{}{"accrual_blocks": accruals, "validator_payouts": payouts, "payouts_with_locked_stakes": x3pays, "dropped_validators": dropped}})
+		Extra: map[string]interface{}{"accrual_blocks": accruals, "validator_payouts": payouts, "payouts_with_locked_stakes": x3pays, "dropped_validators": dropped, "validators_checked_after_mid_period_set_change": setChanges}})
 }
